@@ -42,12 +42,18 @@ RULE = ('random histories of 3-10 operations over one random tree (depth<=5, fan
         'traverser and on one traverser object reused for the whole history (different virtual roots / match dictionaries '
         'in sequence); Router without routes (request attributes), '
         'Router with 7 declared routes (*traverse, {traverse}/*subpath, traverse= predicate, {subpath}: match dictionaries '
-        'from real route matching). thorough adds the exhaustive small-scope sweep (coverage.exhaustive_subruns). non-trivial = the history has a traversal '
+        'from real route matching). Half of the histories build the tree from odd-but-legitimate resource objects (falsy, '
+        '__len__ 0, equal to everything, equal to nothing, unhashable, an always-empty dict subclass with __missing__; one kind '
+        'for the whole tree or mixed), a fifth pass every str argument / match-dictionary value as an instance of a str '
+        'subclass (and tuple paths as lists). thorough adds the exhaustive small-scope sweep (coverage.exhaustive_subruns). non-trivial = the history has a traversal '
         'that consumed at least one segment AND one that stopped early (missing/leaf/@@) or ran under a virtual root; '
         'distinct by full case')
 ASSUMPTIONS = [
     'resources are location-aware objects whose __getitem__ is a pure lookup (first entry with that key) raising KeyError; '
-    'a resource without __getitem__ is a leaf; the __name__ of a child is its key',
+    'a resource without __getitem__ is a leaf; the __name__ of a child is its key; the __parent__ of the root is None '
+    '(a root WITHOUT the attribute is not location-aware: find_root raises AttributeError on it -- outside the quantifier). '
+    'Truth value, length, equality and hashability of a resource are NOT assumed: the harness varies them and the model '
+    'has no such notion',
     'WSGI strings (PATH_INFO, HTTP_X_VHM_ROOT) are str; code points >= 256 are modelled (UnicodeEncodeError)',
     'match dictionary values are str or tuples of str',
     'paths that webob Request.blank reads as a URL with a scheme (^[a-z]+:) are outside the model of traverse() '
@@ -59,9 +65,13 @@ TRUSTED = [
     'literal corresponds to which Gallina primitive of Model/C02_base.v, Lib/Text, Lib/C02Expr -- listed in its docstring) '
     'is trusted; its control-flow rules are mechanical; anything outside subset or table is a broken tie, never a guess',
     'hand-written reference model coq/Model/C02.v (proved equal to the regenerated program for split_path_info, '
-    'decode_path_info, traversal_path_info and the part of ResourceTreeTraverser.__call__ from `root = self.root` on); '
-    'hand-modelled AND shape-pinned: the preamble of __call__ (match dictionary / PATH_INFO / virtual-root header), traverse, '
-    'find_resource, traversal_path, quote_path_segment, _join_path_tuple, find_root, ascii_, url_quote, lineage',
+    'decode_path_info, traversal_path_info, traversal_path (str argument), find_root and the WHOLE of '
+    'ResourceTreeTraverser.__call__ = preamble ; tail); hand-modelled AND shape-pinned: traverse, find_resource, '
+    'quote_path_segment, _join_path_tuple, unquote_bytes_to_wsgi, ascii_, is_nonstr_iter, url_quote, lineage',
+    'primitive-table entries added for the preamble: request.matchdict / request.environ / request.path_info (webob: '
+    'KeyError when PATH_INFO is absent, else latin-1 -> UTF-8), matchdict.get for the keys traverse / subpath with values '
+    'that are a str or a tuple of str, is_nonstr_iter on such a value, self.VH_ROOT_KEY in environ; for find_root: '
+    'lineage(x) = the chain of __parent__ up to the root, x.__parent__ is None = x is the root',
     'Lib/Utf8 (CPython strict UTF-8), Lib/Percent (urllib quote / unquote_to_bytes), Lib/Text (str.strip/split): modelled, '
     'validated by correspondence',
     'webob: Request.blank/environ_from_url/compat.unquote (modelled incl. the int(x,16) leniency), '
@@ -75,12 +85,17 @@ TECHNIQUE = ('Coq proof (induction over the segment list / the walk) about a Gal
              'from the Python source on every run (fail-closed ast translator, leaves through a small primitive table), proved '
              'equal to a hand-written reference model + extracted-model differential correspondence over histories')
 LEVEL_TEXT = ('Machine-checked theorems for trees, paths and virtual roots of any size, stated about the program REGENERATED '
-              'from traversal.py on this run (split_path_info, decode_path_info, traversal_path_info, the walk part of '
-              '__call__; C02_gen_*_is_model tie it to the reference model): the loop of '
+              'from traversal.py on this run (split_path_info, decode_path_info, traversal_path_info, traversal_path, find_root '
+              'and the whole of ResourceTreeTraverser.__call__: gen_call = gen_call_preamble ; gen_call_tail; '
+              'C02_gen_*_is_model tie it to the reference model): the loop of '
               'ResourceTreeTraverser.__call__ equals the declarative outcome (context = resource at the longest walkable '
               'prefix, view name / subpath from the rest, virtual root = resource at the virtual-root segments, walk never '
               "leaves the virtual root's subtree), the characterisation of the walk is unique, '..' never climbs above the "
-              'root / virtual root, Router.handle_request writes exactly the dictionary onto the request, and memoisation '
+              'root / virtual root, the preamble ignores PATH_INFO when a route matched and treats the falsy-but-valid inputs '
+              "(absent / empty PATH_INFO, absent / '' / () traverse, absent subpath) like their defaults, the only exceptions "
+              'are the decoders\' (URLDecodeError exactly for an undecodable PATH_INFO without a route match), find_root '
+              'returns the root of the tree for every resource of it, traverse() resolves an absolute path from that root '
+              'whichever resource is passed and a relative path from the resource passed, Router.handle_request writes exactly the dictionary onto the request, and memoisation '
               '(split_path_info, traversal_path_info, _join_path_tuple LRUs and the (segment, safe) dictionary; any valid '
               'cache state, any history of traversals, Router requests, traverse()/find_resource() calls, path splits and '
               'segment quotings) never changes an answer, nor does reusing one traverser object for a history of requests '
@@ -103,7 +118,7 @@ facts = c02facts.facts
 UNORM = ['cafe\u0301', '\u1100\u1161', '\u212b', '\uf900', 'q\u0307\u0323', '\ufb01n', '\uff21', 'x\u00b2', 'Stra\u00dfe',
          '\u0130', '\u03c2\u03c3', 'a\u200db', '\u202eab', '\u00c5', 'e\u0301\u0301', '\x7f', 'a\u00a0b']
 NAMES = ['a', 'b', 'c', 'x', 'ab', 'A', 'é', '日本', 'a b', '%41', 'a%2Fb', '+', 'a:b', '\U0001f600', '~u'] + UNORM[:9]
-WEIRD = ['..', '.', '@@v', '@@', '@x', '', 'a/b', '%', '%zz', 'http:', 'x?y', 'a#b', '\ud800', ' 1', '-0']
+WEIRD = ['..', '.', '@@v', '@@', '@x', '', 'a/b', '%', '%zz', 'http:', 'x?y', 'a#b', '\ud800', ' 1', '-0', '0', 'None']
 SAFES = ['', '/', '%', "~!$&'()*+,;=:@", "~!$&'()*+,;=:@/", ':@', 'ab']
 
 
@@ -368,7 +383,18 @@ def gen_case(rng):
         pre = [''] if rng.random() < 0.7 else []
         ops[k:k] = [{'k': 'quote', 'seg': seg, 'safe': rng.choice(SAFES)},
                     {'k': rng.choice(['api', 'find']), 'start': [], 'path': pre + [seg]}]
-    return {'tree': tree, 'ops': ops}
+    case = {'tree': tree, 'ops': ops}
+    r = rng.random()
+    if r < 0.25:
+        case['flav'] = [rng.choice(FLAVOURS[1:])]                       # every resource of the same odd kind
+    elif r < 0.5:
+        case['flav'] = [rng.choice(FLAVOURS) for _ in range(rng.choice([2, 3, 5]))]
+    r = rng.random()
+    if r < 0.12:
+        case['strsub'] = 1          # every str argument / match-dictionary value is an instance of a str subclass
+    elif r < 0.2:
+        case['strsub'] = 2          # ... and tuple arguments are lists (traverse()/find_resource() accept any sequence)
+    return case
 
 
 # ---- exhaustive small-scope sweep (thorough tier)
@@ -477,7 +503,13 @@ def _valid_path(p):
 
 def valid(case):
     try:
-        if sorted(k for k in case if k != 'tag') != ['ops', 'tree'] or not _valid_tree(case['tree']) or not case['ops']:
+        if sorted(k for k in case if k not in ('tag', 'flav', 'strsub')) != ['ops', 'tree'] or not _valid_tree(case['tree']) \
+                or not case['ops']:
+            return False
+        if 'flav' in case and not (isinstance(case['flav'], list) and all(
+                isinstance(x, int) and not isinstance(x, bool) and x in FLAVOURS for x in case['flav'])):
+            return False
+        if 'strsub' in case and case['strsub'] not in (1, 2):
             return False
         for o in case['ops']:
             k = o['k']
@@ -527,23 +559,40 @@ def shrinks(case):
     """drop operations, prune the tree, then the generic structural shrinks"""
     from harness.common.main import generic_shrinks
     ops = case['ops']
+    flav = case.get('flav')
+
+    def mk(tree, ops2, fl=flav, ss=case.get('strsub')):
+        c = {'tree': tree, 'ops': ops2}
+        if fl:
+            c['flav'] = fl
+        if ss:
+            c['strsub'] = ss
+        return c
+    if case.get('strsub'):
+        yield mk(case['tree'], ops, flav, None)
+    if flav:
+        # resource flavours: all plain, then one flavour for every node
+        yield mk(case['tree'], ops, None)
+        if len(set(flav)) > 1 or len(flav) > 1:
+            for f in sorted(set(flav)):
+                yield mk(case['tree'], ops, [f])
     if len(ops) > 12:                                   # big histories (sweep chunks): bisect first
         h = len(ops) // 2
-        yield {'tree': case['tree'], 'ops': ops[:h]}
-        yield {'tree': case['tree'], 'ops': ops[h:]}
+        yield mk(case['tree'], ops[:h])
+        yield mk(case['tree'], ops[h:])
         q = max(1, len(ops) // 4)
         for i in range(0, len(ops), q):
-            yield {'tree': case['tree'], 'ops': ops[:i] + ops[i + q:]}
+            yield mk(case['tree'], ops[:i] + ops[i + q:])
     else:
         for i in range(len(ops)):
             if len(ops) > 1:
-                yield {'tree': case['tree'], 'ops': ops[:i] + ops[i + 1:]}
+                yield mk(case['tree'], ops[:i] + ops[i + 1:])
         for o in ops:
             if len(ops) > 1:
-                yield {'tree': case['tree'], 'ops': [o]}
+                yield mk(case['tree'], [o])
     for i, o in enumerate(ops):
         if o.get('start'):
-            yield {'tree': case['tree'], 'ops': ops[:i] + [dict(o, start=[])] + ops[i + 1:]}
+            yield mk(case['tree'], ops[:i] + [dict(o, start=[])] + ops[i + 1:])
     # keep WSGI-shaped inputs WSGI-shaped: a shrink must not strip the leading '/' of a PATH_INFO /
     # virtual-root header (that would turn one failure into a different, less telling one)
     wf = _wsgi_shaped(case)
@@ -552,6 +601,10 @@ def shrinks(case):
     for cand in generic_shrinks({'tree': case['tree'], 'ops': ops}):
         if wf and not _wsgi_shaped(cand):
             continue
+        if flav and isinstance(cand, dict):
+            cand = dict(cand, flav=flav)
+        if case.get('strsub') and isinstance(cand, dict):
+            cand = dict(cand, strsub=case['strsub'])
         yield cand
 
 
@@ -686,13 +739,89 @@ class Folder(Leaf):
         raise KeyError(key)
 
 
-def build_tree(t, name=None, parent=None, pos=()):
+# ---- resource FLAVOURS: what a location-aware resource may legitimately be as a Python object, beyond
+# __name__ / __parent__ / __getitem__.  The property quantifies over ANY location-aware tree and the model has no
+# notion of truth value, equality or hashability of a resource, so none of this may change an outcome:
+#   1 falsy (__bool__ False)        2 empty container (__len__ 0; children computed, not stored)
+#   3 equal to everything (__eq__ True, hashable)   -- `==` where `is` is meant
+#   4 unhashable (__eq__ by identity, __hash__ None) -- a resource used as a dictionary / cache key
+#   5 equal to nothing, not even itself (__eq__ False, __ne__ True)
+#   6 a dict subclass that stores nothing (children through __missing__): falsy, iterable, len 0
+# (a root WITHOUT a __parent__ attribute is not location-aware -- the glossary demands `__parent__ = None` -- and
+# find_root raises AttributeError on it; that case is outside the property's quantifier and not generated)
+FLAVOURS = (0, 1, 2, 3, 4, 5, 6)
+
+
+def _flavour_ns(fl):
+    ns = {}
+    if fl == 1:
+        ns['__bool__'] = lambda self: False
+    elif fl == 2:
+        ns['__len__'] = lambda self: 0
+    elif fl == 3:
+        ns['__eq__'] = lambda self, other: True
+        ns['__ne__'] = lambda self, other: False
+        ns['__hash__'] = lambda self: 7
+    elif fl == 4:
+        ns['__eq__'] = lambda self, other: self is other
+        ns['__hash__'] = None
+    elif fl == 5:
+        ns['__eq__'] = lambda self, other: False
+        ns['__ne__'] = lambda self, other: True
+        ns['__hash__'] = lambda self: 11
+    return ns
+
+
+class _LazyFolder(dict, Folder):
+    """flavour 6: an (always empty, hence falsy) dict whose children are materialised by __missing__"""
+
+    def __init__(self, name, parent, pos):
+        dict.__init__(self)
+        Folder.__init__(self, name, parent, pos)
+
+    def __getitem__(self, key):
+        return dict.__getitem__(self, key)
+
+    def __missing__(self, key):
+        return Folder.__getitem__(self, key)
+
+    __hash__ = object.__hash__
+
+    def __eq__(self, other):
+        return self is other
+
+    def __ne__(self, other):
+        return self is not other
+
+
+_CLS = {}
+
+
+def _cls(fl, folder):
+    key = (fl, folder)
+    if key not in _CLS:
+        base = Folder if folder else Leaf
+        if fl == 6 and folder:
+            _CLS[key] = _LazyFolder
+        elif fl in (0, 6):
+            _CLS[key] = base
+        else:
+            _CLS[key] = type('%s_f%d' % (base.__name__, fl), (base,), _flavour_ns(fl))
+    return _CLS[key]
+
+
+def build_tree(t, name=None, parent=None, pos=(), flav=None, ctr=None):
+    """flav = list of flavour numbers, assigned to the nodes in preorder (cyclically); None/[] = all plain"""
+    ctr = ctr if ctr is not None else [0]
+    fl = flav[ctr[0] % len(flav)] if flav else 0
+    ctr[0] += 1
     if t is None:
-        return Leaf(name, parent, list(pos))
-    f = Folder(name, parent, list(pos))
-    for i, (nm, c) in enumerate(t):
-        f._items.append((nm, build_tree(c, nm, f, pos + (i,))))
-    return f
+        node = _cls(fl, False)(name, parent, list(pos))
+    else:
+        node = _cls(fl, True)(name, parent, list(pos))
+        for i, (nm, c) in enumerate(t):
+            node._items.append((nm, build_tree(c, nm, node, pos + (i,), flav, ctr)))
+    return node
 
 
 def res_at(root, pos):
@@ -788,8 +917,28 @@ def _exc(e):
     return [1, EXC[n]] if n in EXC else ['EXC', n, str(e)[:80]]
 
 
+class _S(str):
+    """a str subclass (no behaviour of its own): `type(x) is str` / `x.__class__ in (str, bytes)` tests see the difference"""
+    __slots__ = ()
+
+
+_mode = {'strsub': 0}
+
+
+def _s(x):
+    return _S(x) if _mode['strsub'] and isinstance(x, str) else x
+
+
 def _py_path(p):
-    return p if isinstance(p, str) else tuple(p)
+    if isinstance(p, str):
+        return _s(p)
+    return tuple(_s(x) for x in p)
+
+
+def _api_path(p):
+    if isinstance(p, str):
+        return _s(p)
+    return [_s(x) for x in p] if _mode['strsub'] == 2 else tuple(_s(x) for x in p)
 
 
 def _run_op(root, o, trav=None):
@@ -847,8 +996,8 @@ def _run_op(root, o, trav=None):
         res = res_at(root, o['start'])
         try:
             if k == 'api':
-                return _tdict(T.traverse(res, _py_path(o['path'])))
-            r = T.find_resource(res, _py_path(o['path']))
+                return _tdict(T.traverse(res, _api_path(o['path'])))
+            r = T.find_resource(res, _api_path(o['path']))
             return [4, list(r._pos)]
         except KeyError:
             return [5]
@@ -856,12 +1005,12 @@ def _run_op(root, o, trav=None):
             return _exc(e)
     if k in ('tpi', 'tp'):
         try:
-            r = (T.traversal_path_info if k == 'tpi' else T.traversal_path)(o['path'])
+            r = (T.traversal_path_info if k == 'tpi' else T.traversal_path)(_s(o['path']))
             return [3, list(r)]
         except Exception as e:
             return _exc(e)
     try:
-        return [6, T.quote_path_segment(o['seg'], o['safe'])]
+        return [6, T.quote_path_segment(_s(o['seg']), o['safe'])]
     except Exception as e:
         return _exc(e)
 
@@ -880,7 +1029,8 @@ def run_impl(case):
         # back to the IMPORT-TIME content (normally empty), not to "empty": a preloaded dictionary is part of the code
         T._segment_cache.clear()
         T._segment_cache.update(_impl.get('seg0', {}))
-    root = build_tree(case['tree'])
+    root = build_tree(case['tree'], flav=case.get('flav'))
+    _mode['strsub'] = case.get('strsub') or 0
     trav = T.ResourceTreeTraverser(root)       # one long-lived traverser per history, next to a fresh one per call
     return [_run_op(root, o, trav) for o in case['ops']]
 
@@ -1011,6 +1161,9 @@ def kinds(case, obs):
             ks.append('has-selector')
     ks.append('ops:%d' % len(case['ops']))
     ks.append('tree-names:' + _name_class(case['tree']))
+    fl = case.get('flav')
+    ks.append('resources:' + ('plain' if not fl else 'mixed' if len(set(fl)) > 1 else 'flavour-%d' % fl[0]))
+    ks.append('strings:' + {0: 'str', 1: 'str-subclass', 2: 'str-subclass+list-paths'}[case.get('strsub') or 0])
     return ks
 
 
@@ -1084,11 +1237,20 @@ def targeted(broken, disagreements, rng):
                                         {'k': 'route', 'path_info': '/t' + w + '/x', 'vroot': None},
                                         {'k': 'router', 'path_info': w, 'vroot': w},
                                         {'k': 'find', 'start': [], 'path': ['', nm, 'x']}]})
+    # odd-but-legitimate resource objects (falsy, empty, equal-to-everything, unhashable, no __parent__ on the root):
+    # absolute and relative paths from a deep start, PATH_INFO under a virtual root, the Router
+    for f in FLAVOURS[1:]:
+        for start in ([0, 0, 0], [0, 0], [1]):
+            out.append({'tree': t, 'flav': [f], 'ops': [
+                {'k': 'api', 'start': start, 'path': '/a/x'}, {'k': 'find', 'start': start, 'path': ['', 'b', 'x']},
+                {'k': 'api', 'start': start, 'path': ['', 'a', 'q']}, {'k': 'api', 'start': [0], 'path': 'x/y'},
+                req('/x/y', '/a'), {'k': 'router', 'path_info': '/a/x/y/z', 'vroot': None},
+                {'k': 'route', 'path_info': '/r/a/x', 'vroot': '/'}]})
     for d in disagreements[:20]:
         c = d.get('case')
         if c:
             for o in c['ops']:
-                out.append({'tree': c['tree'], 'ops': [o]})
+                out.append(dict({'tree': c['tree'], 'ops': [o]}, **({'flav': c['flav']} if c.get('flav') else {})))
     for _ in range(2000):
         out.append(gen_case(rng))
     return out
